@@ -237,7 +237,12 @@ func main() {
 		switch f.c.Family {
 		case "cflow":
 			g := gen.Cflow(gen.CflowCfg{Budget: f.c.Budget, MaxDepth: f.c.Depth, Rich: f.c.Rich})
-			gen.ParallelEnumerate(g, 3, func(p gen.CflowProgram, ch []int) { visit(ch, tg.Print(p.Prog).AllText) })
+			gen.ParallelEnumerate(g, 3, func(p gen.CflowProgram, ch []int) {
+				if strings.HasPrefix(p.Placement, "main") {
+					return // the main function is never optimised: nothing to compare
+				}
+				visit(ch, tg.Print(p.Prog).AllText)
+			})
 		case "func":
 			g := gen.Funcs(gen.FuncCfg{Budget: f.c.Budget})
 			gen.ParallelEnumerate(g, 3, func(p *gen.Program, ch []int) { visit(ch, tg.Print(p).AllText) })
